@@ -28,6 +28,19 @@ def main(argv=None):
                 return 1
             print('%s replay passed' % prop)
             return 0
+        n, bad, herr = runner.run_regress(prop, 'mv.props.%s' % prop.lower())
+        if bad:
+            # a saved input of a repaired defect / sensitivity mutant fails
+            # again: reported with the saved file as replay
+            for path, v in bad[:3]:
+                print('VIOLATION property=%s replay=%s' % (prop, path))
+                print('  detail: %s' % str(v)[:1200])
+            return 1
+        if herr:
+            print('HARNESS-ERROR property=%s regression tier: %s' % (
+                prop, herr[0][-1500:]))
+            return 2
+        os.environ['VERIF_REGRESS_N'] = str(n)
         return mod.main(a.tier, seed)
     except SystemExit:
         raise
